@@ -148,7 +148,7 @@ def mergeFile (db : DB) (nonMerge : Nat) (acc : St √ó MergeSt) (id : Nat) : St √
   match getFile (dirOf s db).data id with
   | none => (s, m)
   | some f =>
-    let sc := scan C id f.bytes
+    let sc := scan C false id f.bytes
     let (s, m) := sc.recs.foldl (fun (acc : St √ó MergeSt) (x : ByteArray √ó Pos) =>
       mergeRec acc.1 db acc.2 nonMerge id x.1 x.2) (s, m)
     if !sc.ok ‚àß m.failed.isNone then (s, { m with failed := some "crc" }) else (s, m)
@@ -175,8 +175,8 @@ theorem mergeFile_step {W : World} {db1 : DB} {s : St} {m : MergeSt} {L : List (
     obtain ‚ü®f, hf, hb‚ü© := Matches_getFile hmt hasc (show (x.1, x.2) ‚àà g1 from hx)
     rw [hdir, hf]
     simp only [hb]
-    have hscan := scan_build C x.1 (payloads x.2) (payloads_pos x.2)
-    have hscan' : scan C x.1 (bytesOf x.2) = { recs := (payloads x.2).zip (possOf x.1 x.2), validEnd := (bytesOf x.2).size, ok := true } := hscan
+    have hscan := scan_build C false x.1 (payloads x.2) (payloads_pos x.2)
+    have hscan' : scan C false x.1 (bytesOf x.2) = { recs := (payloads x.2).zip (possOf x.1 x.2), validEnd := (bytesOf x.2).size, ok := true } := hscan
     rw [hscan']
     simp only []
     have hrecs' : (payloads x.2).zip (possOf x.1 x.2)
